@@ -16,12 +16,12 @@ A text is a list of statements, each abstracted to
   r   SQLite reports it read-only and it changes nothing (SELECT, EXPLAIN, PRAGMA table_info, …)
   w n a write to the database, effect token n
   t   not read-only for SQLite but without effect on the database file (CREATE TEMP TABLE …)
-go-sqlite3 executes EVERY statement of a text (`QueryContext` / `ExecContext` loop over the tail).
+go-sqlite3's `ExecContext` steps EVERY statement of a text, `QueryContext` only the last.
 
-SQLite is a parameter with assumed laws, here in executable form (`runRO`, `runRW`): a
-connection opened with mode=ro and query_only refuses to step `w` and `t` and leaves the database
-unchanged; the read-write connection executes what it is asked to step. Exercised on real SQLite by the
-C17 correspondence runs.
+SQLite is a parameter with assumed laws (`structure SqliteConn`): a connection opened with
+mode=ro and query_only refuses to step `w` and `t` and leaves the database unchanged; a read-only
+statement changes nothing. `listConn` is the executable instance the driver runs. Exercised on
+real SQLite by the C17 correspondence runs.
 -/
 import RqModel.Model.Util
 namespace RqModel.Routing
@@ -54,34 +54,62 @@ def lastStmt : Text → Option Stmt
   | [s] => some s
   | _ :: rest => lastStmt rest
 
-/-- `QueryContext` on a read-only-pool connection (mode=ro, query_only): an error iff the statement
-that is stepped is not read-only; nothing changes -/
-def runROq (t : Text) : Bool :=   -- true = error
+/-- One SQLite connection as a PARAMETER: `step queryOnly db s` = stepping statement `s` to
+completion on a connection of the read-only pool (`queryOnly`, opened with mode=ro and
+PRAGMA query_only) or on the read-write connection; it yields the database afterwards and
+whether the statement failed. The fields after `step` are the assumed laws (exercised on real
+SQLite by the C17 runs). -/
+structure SqliteConn (σ : Type) where
+  step : Bool → σ → Stmt → σ × Bool
+  /-- a query_only / mode=ro connection refuses every statement that is not read-only, unchanged -/
+  queryOnly_refuses : ∀ db s, stmtReadOnly s = false → step true db s = (db, true)
+  /-- a read-only statement changes nothing and succeeds, on either kind of connection -/
+  readOnly_keeps : ∀ q db s, stmtReadOnly s = true → step q db s = (db, false)
+
+/-- `QueryContext(text)`: only the last statement is stepped -/
+def queryCtx {σ : Type} (C : SqliteConn σ) (q : Bool) (db : σ) (t : Text) : σ × Bool :=
   match lastStmt t with
-  | some s => !stmtReadOnly s
-  | none => false
+  | some s => C.step q db s
+  | none => (db, false)
+
+/-- `db.Query` / `QueryWithContext` (no transaction): every non-empty text through `QueryContext`
+on a connection of the read-only pool -/
+def dbQueryG {σ : Type} (C : SqliteConn σ) : σ → List Text → σ × List Bool
+  | db, [] => (db, [])
+  | db, t :: rest =>
+    if t = [] then dbQueryG C db rest
+    else
+      let r := queryCtx C true db t
+      let rs := dbQueryG C r.1 rest
+      (rs.1, r.2 :: rs.2)
+
+/-- the executable connection used by the driver: the database is the list of effect tokens -/
+def listConn : SqliteConn Db where
+  step q db s :=
+    match s with
+    | .r => (db, false)
+    | .w n => if q then (db, true) else (db ++ [n], false)
+    | .t => if q then (db, true) else (db, false)
+  queryOnly_refuses := by intro db s h; cases s <;> simp_all [stmtReadOnly]
+  readOnly_keeps := by intro q db s h; cases s <;> simp_all [stmtReadOnly]
 
 /-- `QueryContext` on the read-write connection -/
-def runRWq (db : Db) (t : Text) : Db :=
-  match lastStmt t with
-  | some (.w n) => db ++ [n]
-  | _ => db
+def runRWq (db : Db) (t : Text) : Db := (queryCtx listConn false db t).1
 
 /-- `ExecContext` on the read-write connection: every statement is executed -/
 def runRWexec (db : Db) : Text → Db
   | [] => db
-  | .w n :: rest => runRWexec (db ++ [n]) rest
-  | _ :: rest => runRWexec db rest
+  | s :: rest => runRWexec (listConn.step false db s).1 rest
 
 structure Out where
   db : Db
   errs : List Bool      -- per non-empty text: did it report an error
 deriving Repr, DecidableEq
 
-/-- `db.Query` / `QueryWithContext` (no transaction): every text through `QueryContext` on the
-read-only pool -/
+/-- `db.Query` -/
 def dbQuery (db : Db) (texts : List Text) : Out :=
-  ⟨db, (texts.filter (· ≠ [])).map runROq⟩
+  let r := dbQueryG listConn db texts
+  ⟨r.1, r.2⟩
 
 /-- one text in `RequestWithContext`: `queryStmtWithConn` when SQLite classifies it read-only,
 `executeStmtWithConn` otherwise - both on the read-write connection -/
